@@ -132,8 +132,11 @@ def drive(fi, rec, flavour, expected, nchunks, exc_type, rnd, names=('e', 'a', '
         exc, exc_obj = 'inspector_error', e
     consumed_at_exc = st.read_index
     finished_before_close = {n: s.finished_calls for n, s in stubs.items()}
-    w.close()
     problems = []
+    try:
+        w.close()
+    except Exception as e:
+        problems.append('close() raised %s' % type(e).__name__)
     want_stream = chunks + ([b''] if flavour == 'file' else [])
     if got != want_stream[:len(got)]:
         problems.append('bytes returned differ from the source')
@@ -286,7 +289,11 @@ def record_real(fi, data, read_size, flavour, expected, inject, rnd):
         exc = 'inspector_error'
         st.log.append(('raise', exc))
     st.log.append(('closing',))
-    w.close()
+    close_exc = None
+    try:
+        w.close()
+    except Exception as e:          # an observation: close() must not fail because an inspector does
+        close_exc = type(e).__name__
     joined = b''.join(got)
     transparent = joined == data[:len(joined)] and (exc != 'none' or joined == data)
     ev = []
@@ -307,6 +314,8 @@ def record_real(fi, data, read_size, flavour, expected, inject, rnd):
             ev.append({'op': 'close', 'c': 0, 'i': ''})
     exp_complete, exp_match = first_complete.get(expected, (1000001, True))
     tr = {'failAt': fail_at, 'ecomplete': exp_complete, 'ematch': exp_match, 'ev': ev}
+    if close_exc:
+        exc = 'close:' + close_exc
     return tr, transparent, exc
 
 
@@ -351,8 +360,10 @@ def real_traces(ctx, fi):
                               {'expected_format': exp, 'read_size': rs, 'inject': inject, 'len': len(data)},
                               'bytes read through InspectWrapper differ from the source (%s, expected=%s, inject=%s)' % (
                                   fl, exp, inject))
-            if exc == 'inspector_error' and (inject is None or inject[0] != exp):
-                pass
+            if exc.startswith('close:'):
+                ctx.violation({'kind': 'close-raised', 'flavour': fl, 'exc': exc},
+                              {'expected_format': exp, 'read_size': rs, 'inject': inject, 'len': len(data)},
+                              'InspectWrapper.close() raised %s (%s source, expected=%s, %d bytes)' % (exc, fl, exp, len(data)))
             batch.append(tr)
             meta.append((len(data), rs, inject, exc))
         rejected, inv, r = traces.validate(
